@@ -219,6 +219,16 @@ func (tw *TumblingWindow) Add(data any) {
 		}
 	}
 
+	// An on-time event (not behind the watermark) that precedes the current slot
+	// can only occur before any window has fired or been skipped: afterwards the
+	// slot start is <= the delivered watermark <= every on-time timestamp. The
+	// slot was then created from a later first event; re-seat it on this event's
+	// aligned interval so the event is reported instead of staying buffered forever.
+	if timeChar == types.EventTime && tw.currentSlot != nil && eventTime.Before(*tw.currentSlot.Start) &&
+		(tw.watermark == nil || !tw.watermark.IsEventTimeLate(eventTime)) {
+		tw.currentSlot = tw.createSlotFromStart(alignWindowStart(eventTime, tw.size))
+	}
+
 	row := types.Row{
 		Data:      data,
 		Timestamp: eventTime,
